@@ -1125,3 +1125,298 @@ Proof.
   unfold code_points. apply occurs_code_points; [now apply alnum_ascii | lia].
 Qed.
 Print Assumptions regex_literal.
+
+(* ================================================================= Regex: matcher vs declarative semantics *)
+
+(* ---- declarative semantics: matches r pre w post  =  r matches the code points w when the
+   text is pre ++ w ++ post (the context is needed for ^ and $) ---- *)
+
+Definition nilb {A} (l : list A) : bool := match l with [] => true | _ :: _ => false end.
+
+Section Iter.
+  Variable P : list N -> list N -> list N -> Prop.
+  (* the words ws are matched one after the other *)
+  Fixpoint iter (pre : list N) (ws : list (list N)) (post : list N) : Prop :=
+    match ws with
+    | [] => True
+    | w1 :: ws' => P pre w1 (concat ws' ++ post) /\ iter (pre ++ w1) ws' post
+    end.
+End Iter.
+
+Fixpoint matches (r : re) (pre w post : list N) : Prop :=
+  match r with
+  | Eps => w = []
+  | Chr c => w = [c]
+  | Any => exists c, w = [c] /\ c <> 10
+  | Cls neg items => exists c, w = [c] /\ cls_match neg items c = true
+  | Bol => w = [] /\ pre = []
+  | Eol => w = [] /\ post = []
+  | Cat a b =>
+      exists w1 w2, w = w1 ++ w2 /\ matches a pre w1 (w2 ++ post) /\ matches b (pre ++ w1) w2 post
+  | Alt a b => matches a pre w post \/ matches b pre w post
+  | Star a => exists ws, iter (matches a) pre ws post /\ w = concat ws
+  | Plus a => exists ws, ws <> [] /\ iter (matches a) pre ws post /\ w = concat ws
+  | Rep a mn mx =>
+      exists ws, iter (matches a) pre ws post /\ w = concat ws /\
+                 mn <= N.of_nat (length ws) /\
+                 match mx with Some m => N.of_nat (length ws) <= m | None => True end
+  end.
+
+(* a state of the matcher: a sequence of regexps *)
+Fixpoint mseq (k : list re) (pre w post : list N) : Prop :=
+  match k with
+  | [] => w = []
+  | r :: k' =>
+      exists w1 w2, w = w1 ++ w2 /\ matches r pre w1 (w2 ++ post) /\ mseq k' (pre ++ w1) w2 post
+  end.
+
+Lemma concat_repeat_nil : forall (j : nat) (rest : list (list N)),
+  concat (repeat [] j ++ rest) = concat rest.
+Proof. induction j as [|j IH]; intros rest; [reflexivity|]. cbn [repeat app concat]. apply IH. Qed.
+
+Lemma iter_pad : forall (P : list N -> list N -> list N -> Prop) pre j rest post,
+  P pre [] (concat rest ++ post) -> iter P pre rest post ->
+  iter P pre (repeat [] j ++ rest) post.
+Proof.
+  intros P pre j rest post H0 Hr. induction j as [|j IH]; [exact Hr|].
+  cbn [repeat app iter]. rewrite concat_repeat_nil, app_nil_r. split; assumption.
+Qed.
+
+Lemma nullable_sound : forall r pre post,
+  wfb r = true -> nullable (nilb pre) (nilb post) r = true -> matches r pre [] post.
+Proof.
+  induction r as [|c| |n1 i1| | |a IHa b IHb|a IHa b IHb|a IHa|a IHa|a IHa mn mx];
+    intros pre post Hwf Hn; cbn [nullable wfb matches] in *; try discriminate.
+  - reflexivity.
+  - split; [reflexivity|]. now destruct pre.
+  - split; [reflexivity|]. now destruct post.
+  - apply andb_true_iff in Hwf. destruct Hwf as [Hwa Hwb].
+    apply andb_true_iff in Hn. destruct Hn as [Hna Hnb].
+    exists [], []. split; [reflexivity|]. cbn [app]. rewrite app_nil_r. split; auto.
+  - apply andb_true_iff in Hwf. destruct Hwf as [Hwa Hwb].
+    apply orb_true_iff in Hn. destruct Hn as [Hna|Hnb]; [left|right]; auto.
+  - exists []. split; [exact I | reflexivity].
+  - exists [[]]. split; [discriminate|]. split; [|reflexivity].
+    cbn [iter concat app]. split; [auto | exact I].
+  - apply andb_true_iff in Hwf. destruct Hwf as [Hwa Hwm].
+    destruct (mn =? 0) eqn:E0.
+    + exists []. split; [exact I|]. split; [reflexivity|]. cbn [length]. split; [lia|].
+      destruct mx; [lia | exact I].
+    + cbn [orb] in Hn. exists (repeat [] (N.to_nat mn) ++ []).
+      split; [|split; [|split]].
+      * apply iter_pad; [|exact I]. cbn [concat app]. auto.
+      * now rewrite concat_repeat_nil.
+      * rewrite app_nil_r, repeat_length. lia.
+      * rewrite app_nil_r, repeat_length. destruct mx; [lia | exact I].
+Qed.
+
+Lemma mseq_app_inv : forall k1 k2 pre w post,
+  mseq (k1 ++ k2) pre w post ->
+  exists w1 w2, w = w1 ++ w2 /\ mseq k1 pre w1 (w2 ++ post) /\ mseq k2 (pre ++ w1) w2 post.
+Proof.
+  induction k1 as [|r k1 IH]; intros k2 pre w post H.
+  - exists [], w. cbn [app mseq]. rewrite app_nil_r. auto.
+  - cbn [app mseq] in H. destruct H as (wa & wb & Hw & Hr & Hk).
+    destruct (IH _ _ _ _ Hk) as (wb1 & wb2 & Hwb & H1 & H2).
+    exists (wa ++ wb1), wb2. subst. split; [now rewrite app_assoc|]. split.
+    + cbn [mseq]. exists wa, wb1. split; [reflexivity|]. rewrite <- app_assoc in Hr. auto.
+    + now rewrite app_assoc.
+Qed.
+
+Lemma mseq_single : forall b pre w post, mseq [b] pre w post -> matches b pre w post.
+Proof.
+  intros b pre w post (w1 & w2 & Hw & Hm & He). cbn [mseq] in He. subst.
+  now rewrite app_nil_r.
+Qed.
+
+Lemma snoc_assoc : forall (pre : list N) c w, (pre ++ [c]) ++ w = pre ++ c :: w.
+Proof. intros. now rewrite <- app_assoc. Qed.
+
+Lemma pd_sound : forall r pre c w post k,
+  wfb r = true -> In k (pd (nilb pre) c r) -> mseq k (pre ++ [c]) w post ->
+  matches r pre (c :: w) post.
+Proof.
+  induction r as [|d| |n1 i1| | |a IHa b IHb|a IHa b IHb|a IHa|a IHa|a IHa mn mx];
+    intros pre c w post k Hwf Hin Hm; cbn [pd wfb matches] in *; try contradiction.
+  - destruct (c =? d) eqn:E; [|contradiction]. destruct Hin as [<-|[]].
+    cbn [mseq] in Hm. subst. apply N.eqb_eq in E. now subst.
+  - destruct (c =? 10) eqn:E; [contradiction|]. destruct Hin as [<-|[]].
+    cbn [mseq] in Hm. subst. exists c. split; [reflexivity | lia].
+  - destruct (cls_match n1 i1 c) eqn:E; [|contradiction]. destruct Hin as [<-|[]].
+    cbn [mseq] in Hm. subst. exists c. auto.
+  - apply andb_true_iff in Hwf. destruct Hwf as [Hwa Hwb].
+    apply in_app_or in Hin. destruct Hin as [Hin|Hin].
+    + apply in_map_iff in Hin. destruct Hin as (k0 & <- & Hk0).
+      apply mseq_app_inv in Hm. destruct Hm as (w1 & w2 & -> & H1 & H2).
+      apply mseq_single in H2. rewrite snoc_assoc in H2.
+      exists (c :: w1), w2. split; [reflexivity|]. split; [|exact H2].
+      eapply IHa; eauto.
+    + destruct (nullable (nilb pre) false a) eqn:En; [|contradiction].
+      exists [], (c :: w). split; [reflexivity|]. rewrite app_nil_r. split.
+      * apply nullable_sound; [assumption|]. exact En.
+      * eapply IHb; eauto.
+  - apply andb_true_iff in Hwf. destruct Hwf as [Hwa Hwb].
+    apply in_app_or in Hin. destruct Hin as [Hin|Hin]; [left; eapply IHa | right; eapply IHb]; eauto.
+  - apply in_map_iff in Hin. destruct Hin as (k0 & <- & Hk0).
+    apply mseq_app_inv in Hm. destruct Hm as (w1 & w2 & -> & H1 & H2).
+    apply mseq_single in H2. cbn [matches] in H2. destruct H2 as (ws & Hit & ->).
+    exists ((c :: w1) :: ws). split; [|reflexivity]. cbn [iter]. split.
+    + eapply IHa; eauto.
+    + now rewrite snoc_assoc in Hit.
+  - apply in_map_iff in Hin. destruct Hin as (k0 & <- & Hk0).
+    apply mseq_app_inv in Hm. destruct Hm as (w1 & w2 & -> & H1 & H2).
+    apply mseq_single in H2. cbn [matches] in H2. destruct H2 as (ws & Hit & ->).
+    exists ((c :: w1) :: ws). split; [discriminate|]. split; [|reflexivity]. cbn [iter]. split.
+    + eapply IHa; eauto.
+    + now rewrite snoc_assoc in Hit.
+  - apply andb_true_iff in Hwf. destruct Hwf as [Hwa Hwm].
+    destruct (match mx with Some m => m =? 0 | None => false end) eqn:Emx; [contradiction|].
+    apply in_map_iff in Hin. destruct Hin as (k0 & <- & Hk0).
+    apply mseq_app_inv in Hm. destruct Hm as (w1 & w2 & -> & H1 & H2).
+    apply mseq_single in H2. cbn [matches] in H2.
+    destruct H2 as (ws & Hit & -> & Hmin & Hmax).
+    rewrite snoc_assoc in Hit.
+    pose proof (IHa pre c w1 (concat ws ++ post) k0 Hwa Hk0 H1) as Ha.
+    set (j := if nullable (nilb pre) false a
+              then N.to_nat (mn - 1 - N.of_nat (length ws)) else 0%nat).
+    exists (repeat [] j ++ (c :: w1) :: ws). split; [|split; [|split]].
+    + destruct (nullable (nilb pre) false a) eqn:En.
+      * apply iter_pad.
+        -- apply nullable_sound; [assumption|]. exact En.
+        -- cbn [iter]. auto.
+      * subst j. cbn [repeat app iter]. auto.
+    + rewrite concat_repeat_nil. reflexivity.
+    + rewrite app_length, repeat_length. cbn [length]. subst j.
+      destruct (nullable (nilb pre) false a); lia.
+    + rewrite app_length, repeat_length. cbn [length]. subst j.
+      destruct mx as [m|]; [|exact I]. cbn [opt_pred option_map] in Hmax.
+      destruct (nullable (nilb pre) false a); lia.
+Qed.
+
+Lemma nullable_seq_sound : forall k pre post,
+  forallb wfb k = true -> nullable_seq (nilb pre) (nilb post) k = true -> mseq k pre [] post.
+Proof.
+  induction k as [|r k IH]; intros pre post Hwf Hn; [reflexivity|].
+  cbn [forallb] in Hwf. apply andb_true_iff in Hwf. destruct Hwf as [Hwr Hwk].
+  unfold nullable_seq in Hn. cbn [forallb] in Hn. apply andb_true_iff in Hn. destruct Hn as [Hnr Hnk].
+  cbn [mseq]. exists [], []. split; [reflexivity|]. cbn [app]. rewrite app_nil_r.
+  split; [now apply nullable_sound | now apply IH].
+Qed.
+
+Lemma pd_seq_sound : forall k pre c w post k',
+  forallb wfb k = true -> In k' (pd_seq (nilb pre) c k) -> mseq k' (pre ++ [c]) w post ->
+  mseq k pre (c :: w) post.
+Proof.
+  induction k as [|r k IH]; intros pre c w post k' Hwf Hin Hm; cbn [pd_seq] in Hin; [contradiction|].
+  cbn [forallb] in Hwf. apply andb_true_iff in Hwf. destruct Hwf as [Hwr Hwk].
+  apply in_app_or in Hin. destruct Hin as [Hin|Hin].
+  - apply in_map_iff in Hin. destruct Hin as (x & <- & Hx).
+    apply mseq_app_inv in Hm. destruct Hm as (w1 & w2 & -> & H1 & H2).
+    cbn [mseq]. exists (c :: w1), w2. split; [reflexivity|]. split.
+    + eapply pd_sound; eauto.
+    + now rewrite snoc_assoc in H2.
+  - destruct (nullable (nilb pre) false r) eqn:En; [|contradiction].
+    cbn [mseq]. exists [], (c :: w). split; [reflexivity|]. rewrite app_nil_r. split.
+    + apply nullable_sound; [assumption | exact En].
+    + eapply IH; eauto.
+Qed.
+
+Lemma forallb_app_true : forall A (f : A -> bool) l1 l2,
+  forallb f l1 = true -> forallb f l2 = true -> forallb f (l1 ++ l2) = true.
+Proof. intros. rewrite forallb_app. now apply andb_true_iff. Qed.
+
+Lemma pd_wf : forall r st c k, wfb r = true -> In k (pd st c r) -> forallb wfb k = true.
+Proof.
+  induction r as [|d| |n1 i1| | |a IHa b IHb|a IHa b IHb|a IHa|a IHa|a IHa mn mx];
+    intros st c k Hwf Hin; cbn [pd wfb] in *; try contradiction.
+  - destruct (c =? d); [|contradiction]. destruct Hin as [<-|[]]. reflexivity.
+  - destruct (c =? 10); [contradiction|]. destruct Hin as [<-|[]]. reflexivity.
+  - destruct (cls_match n1 i1 c); [|contradiction]. destruct Hin as [<-|[]]. reflexivity.
+  - apply andb_true_iff in Hwf. destruct Hwf as [Hwa Hwb].
+    apply in_app_or in Hin. destruct Hin as [Hin|Hin].
+    + apply in_map_iff in Hin. destruct Hin as (k0 & <- & Hk0).
+      apply forallb_app_true; [eapply IHa; eauto|]. cbn [forallb]. now rewrite Hwb.
+    + destruct (nullable st false a); [|contradiction]. eapply IHb; eauto.
+  - apply andb_true_iff in Hwf. destruct Hwf as [Hwa Hwb].
+    apply in_app_or in Hin. destruct Hin as [Hin|Hin]; [eapply IHa | eapply IHb]; eauto.
+  - apply in_map_iff in Hin. destruct Hin as (k0 & <- & Hk0).
+    apply forallb_app_true; [eapply IHa; eauto|]. cbn [forallb wfb]. now rewrite Hwf.
+  - apply in_map_iff in Hin. destruct Hin as (k0 & <- & Hk0).
+    apply forallb_app_true; [eapply IHa; eauto|]. cbn [forallb wfb]. now rewrite Hwf.
+  - apply andb_true_iff in Hwf. destruct Hwf as [Hwa Hwm].
+    destruct (match mx with Some m => m =? 0 | None => false end) eqn:Emx; [contradiction|].
+    apply in_map_iff in Hin. destruct Hin as (k0 & <- & Hk0).
+    apply forallb_app_true; [eapply IHa; eauto|]. cbn [forallb wfb]. rewrite Hwa. cbn [andb].
+    rewrite andb_true_r. destruct mx as [m|]; [|reflexivity]. cbn [opt_pred option_map].
+    destruct (nullable st false a); lia.
+Qed.
+
+Lemma pd_seq_wf : forall k st c k',
+  forallb wfb k = true -> In k' (pd_seq st c k) -> forallb wfb k' = true.
+Proof.
+  induction k as [|r k IH]; intros st c k' Hwf Hin; cbn [pd_seq] in Hin; [contradiction|].
+  cbn [forallb] in Hwf. apply andb_true_iff in Hwf. destruct Hwf as [Hwr Hwk].
+  apply in_app_or in Hin. destruct Hin as [Hin|Hin].
+  - apply in_map_iff in Hin. destruct Hin as (x & <- & Hx).
+    apply forallb_app_true; [eapply pd_wf; eauto | assumption].
+  - destruct (nullable st false r); [|contradiction]. eapply IH; eauto.
+Qed.
+
+Lemma nilb_snoc : forall (pre : list N) c, nilb (pre ++ [c]) = false.
+Proof. intros [|x pre] c; reflexivity. Qed.
+
+Lemma accepts_sound : forall cs k pre,
+  forallb wfb k = true -> accepts_seq (nilb pre) k cs = true ->
+  exists w rest, cs = w ++ rest /\ mseq k pre w rest.
+Proof.
+  induction cs as [|c cs IH]; intros k pre Hwf Hacc; cbn [accepts_seq] in Hacc.
+  - exists [], []. split; [reflexivity|]. now apply (nullable_seq_sound k pre []).
+  - apply orb_true_iff in Hacc. destruct Hacc as [Hn|Hex].
+    + exists [], (c :: cs). split; [reflexivity|]. now apply (nullable_seq_sound k pre (c :: cs)).
+    + apply existsb_exists in Hex. destruct Hex as (k' & Hin & Hacc').
+      rewrite <- (nilb_snoc pre c) in Hacc'.
+      destruct (IH k' (pre ++ [c]) (pd_seq_wf _ _ _ _ Hwf Hin) Hacc') as (w & rest & -> & Hm).
+      exists (c :: w), rest. split; [reflexivity|]. eapply pd_seq_sound; eauto.
+Qed.
+
+Lemma search_fresh_sound : forall cs r pre,
+  wfb r = true -> search_fresh r (nilb pre) cs = true ->
+  exists p2 w post, cs = p2 ++ w ++ post /\ matches r (pre ++ p2) w post.
+Proof.
+  induction cs as [|c cs IH]; intros r pre Hwf H; cbn [search_fresh] in H;
+    apply orb_true_iff in H; destruct H as [H|H]; try discriminate.
+  - destruct (accepts_sound [] [r] pre) as (w & rest & He & Hm); [cbn; now rewrite Hwf | exact H |].
+    exists [], w, rest. split; [exact He|]. rewrite app_nil_r. now apply mseq_single.
+  - destruct (accepts_sound (c :: cs) [r] pre) as (w & rest & He & Hm); [cbn; now rewrite Hwf | exact H |].
+    exists [], w, rest. split; [exact He|]. rewrite app_nil_r. now apply mseq_single.
+  - rewrite <- (nilb_snoc pre c) in H.
+    destruct (IH r (pre ++ [c]) Hwf H) as (p2 & w & post & -> & Hm).
+    exists (c :: p2), w, post. split; [reflexivity|]. now rewrite snoc_assoc in Hm.
+Qed.
+
+(* no false positives: when the search says "match", some substring of the text really matches r *)
+Theorem search_sound : forall r cs,
+  wfb r = true -> search r true [] cs = true ->
+  exists pre w post, cs = pre ++ w ++ post /\ matches r pre w post.
+Proof.
+  intros r cs Hwf H. rewrite search_initial in H.
+  destruct (search_fresh_sound cs r [] Hwf H) as (p2 & w & post & He & Hm).
+  exists p2, w, post. auto.
+Qed.
+
+Theorem regex_match_sound : forall p s,
+  regex_match p s = RxMatch true ->
+  exists r prod pre w post,
+    parse_pattern p = POk r prod /\
+    code_points s = pre ++ w ++ post /\ matches r pre w post.
+Proof.
+  intros p s H. unfold regex_match in H.
+  destruct (max_pattern_len <? N.of_nat (length p)); [discriminate|].
+  destruct (parse_pattern p) as [r prod| |] eqn:Hp; try discriminate.
+  destruct (max_size_budget <=? prod * (8 * N.of_nat (length p) + 16)); [discriminate|].
+  destruct (wfb r) eqn:Hwf; cbn [negb] in H; [|discriminate].
+  inversion H as [Hs].
+  destruct (search_sound r (code_points s) Hwf Hs) as (pre & w & post & He & Hm).
+  exists r, prod, pre, w, post. auto.
+Qed.
+Print Assumptions regex_match_sound.
